@@ -298,14 +298,18 @@ def run(scenario):
             def __init__(self):
                 self.idx = {}
                 self.pairs = {}
+                self.users = {}
 
             def before_step(self, node, cause):
                 # the CHILD_SAs this endpoint tracked (both halves installed) before the step
                 m = self.pairs.setdefault(node.name, {})
+                users = self.users[node.name] = {}        # (daddr, SPI) -> how many tracked CHILD_SAs use that kernel SA
                 for sa in node.ike_sas():
                     for c in sa.child_sas:
                         m[bytes(c.inbound_spi)] = bytes(c.outbound_spi)
                         m[bytes(c.outbound_spi)] = bytes(c.inbound_spi)
+                        for k_ in ((_addr_raw(str(sa.peer_addr)), bytes(c.outbound_spi)), (_addr_raw(str(sa.my_addr)), bytes(c.inbound_spi))):
+                            users[k_] = users.get(k_, 0) + 1
 
             def after_step(self, node, cause):
                 reqs = node.kernel.requests
@@ -331,6 +335,15 @@ def run(scenario):
                     if not d or d.get('kind') != 'delsa' or r_['errno'] or r_.get('injected'):
                         continue
                     spi = d['id']['spi']
+                    # a peer that re-uses an SPI makes (daddr, proto, SPI) ambiguous: if a CHILD_SA that used this kernel SA was dropped in this
+                    # very step, the DELSA says what was meant (thorough soak, seed 501016343: the old CHILD_SA hard-expired in the kernel, the
+                    # peer re-used its SPI for a new one, then the old one was deleted by the daemon)
+                    before = self.users.get(node.name, {}).get((d['id']['daddr_raw'], bytes(spi)), 0)
+                    after = sum(1 for sa in node.ike_sas() if sa.state.name != 'DELETED' for c in sa.child_sas
+                                if (bytes(c.outbound_spi) == spi and d['id']['daddr_raw'] == _addr_raw(str(sa.peer_addr)))
+                                or (bytes(c.inbound_spi) == spi and d['id']['daddr_raw'] == _addr_raw(str(sa.my_addr))))
+                    if after < before:
+                        continue
                     for sa in node.ike_sas():
                         if sa.state.name in ('DELETED',):
                             continue
